@@ -5,3 +5,4 @@ import PG.Props.C01
 #print axioms PG.C01_pm_indep
 #print axioms PG.C01_offset_exact
 #print axioms PG.C01_block_local
+#print axioms PG.C01_cache
